@@ -302,6 +302,7 @@ def explore(ctx, tier, rng, specs, search=False):
                    (seeded offset) + every call point of the other five groups; two-preemption call-level lattices
                    capped at 40 k (tiny) and 4 k per fixed pair; 6000 random."""
     quick = tier == "quick" and not search
+    full = tier == "thorough" and not search     # (the failing-input search uses the middle budget)
     jobs = []
     notes = []
     off = rng.randrange(1 << 16)
@@ -328,7 +329,7 @@ def explore(ctx, tier, rng, specs, search=False):
                     jobs.append((spec, urls, ch, "one-preemption-exhaustive", "line"))
                 # two preemptions (call level): a lattice; the full square is ~10^6 schedules
                 allsq = sum(pts[t] * pts[u] for t in range(len(pts)) for u in range(len(pts)) if u != t)
-                stride = 14 if quick else max(1, int((allsq / 20000.0) ** 0.5) + 1)
+                stride = max(1, int((allsq / (20000.0 if full else 2600.0)) ** 0.5) + 1)
                 two = list(two_preemption_plans(pts, stride=stride))
                 for ch in chunks(two, 150):
                     jobs.append((spec, urls, ch, "two-preemptions-lattice", "call"))
@@ -336,28 +337,25 @@ def explore(ctx, tier, rng, specs, search=False):
                              "two-preemption(call, stride %d of %d)=%d"
                              % (label, urls, pts, lpts, len(line_one), stride, allsq, len(two)))
                 continue
-            if gi < 2:
-                if quick:
-                    for ch in chunks(one, 120):
-                        jobs.append((spec, urls, ch, "one-preemption-exhaustive", "call"))
-                    sample, tag = rng.sample(line_one, min(150, len(line_one))), "one-preemption-random-sample"
-                else:
-                    sample, tag = line_one, "one-preemption-exhaustive"
+            if full and gi < 2:
+                sample, tag = line_one, "one-preemption-exhaustive"      # subsumes the call-level ones
             else:
-                if quick:
-                    sub = one[(gi + off) % 10::10]
-                    for ch in chunks(sub, 120):
-                        jobs.append((spec, urls, ch, "one-preemption-sampled", "call"))
-                    sample, tag = rng.sample(line_one, min(150, len(line_one))), "one-preemption-random-sample"
+                if quick and gi >= 2:
+                    sub, ctag = one[(gi + off) % 10::10], "one-preemption-sampled"
                 else:
-                    for ch in chunks(one, 120):
-                        jobs.append((spec, urls, ch, "one-preemption-exhaustive", "call"))
+                    sub, ctag = one, "one-preemption-exhaustive"
+                for ch in chunks(sub, 120):
+                    jobs.append((spec, urls, ch, ctag, "call"))
+                if full:
                     sample, tag = line_one[off % 4::4], "one-preemption-every-4th"
+                else:
+                    sample = rng.sample(line_one, min(150 if quick else 1000, len(line_one)))
+                    tag = "one-preemption-random-sample"
             for ch in chunks(sample, 120):
                 jobs.append((spec, urls, ch, tag, "line"))
             note = "%s %s: call points=%s line points=%s line-level one-preemption %s=%d" % (
                 label, urls, pts, lpts, tag, len(sample))
-            if not quick:
+            if full:
                 stride = max(1, int((2.0 * pts[0] * pts[1] / 4000.0) ** 0.5))
                 two = list(two_preemption_plans(pts[:2], stride=stride))
                 for ch in chunks(two, 150):
@@ -365,7 +363,7 @@ def explore(ctx, tier, rng, specs, search=False):
                 note += " two-preemption(call) lattice stride %d=%d" % (stride, len(two))
             notes.append(note)
     # random schedules with more preemptions, random datasets and request groups
-    n_random = 300 if quick else 6000
+    n_random = 300 if quick else 6000 if full else 1500
     for i in range(n_random):
         if i % 3 == 0:
             spec, urls = F.FIXED_SPEC, rng.sample(F.FIXED_REQUESTS, rng.choice([2, 3]))
@@ -406,56 +404,110 @@ def _profile(spec, url, labels):
     return out, rec, hits
 
 
-def targeted(ctx, rng, breaks, search=False):
-    """`breaks`: [{"label", "spec", "url"}] — requests that were seen to change a module-level container.
-    For every such container: the functions that name it (static) or were running when it changed (dynamic); for
-    pairs of different requests that both write it, every one-preemption schedule whose switch point is a line of
-    one of those functions (both threads, both orders).  Failures are recorded with the schedule."""
+def _profile_job(job):
+    return _profile(*job)
+
+
+def _signature(url):
+    path, _, q = url.partition("?")
+    return (path.rsplit(".", 1)[-1], "(" in q, "&" in q, "[" in q)
+
+
+def _diverse(rng, urls, n):
+    """up to n urls, one per request signature (response kind, function, selection, hyperslab) first"""
+    groups = {}
+    for u in sorted(set(urls)):
+        groups.setdefault(_signature(u), []).append(u)
+    for g in groups.values():
+        rng.shuffle(g)
+    out = []
+    keys = sorted(groups)
+    while len(out) < n and any(groups[k] for k in keys):
+        for k in keys:
+            if groups[k] and len(out) < n:
+                out.append(groups[k].pop())
+    return out
+
+
+def targeted(ctx, rng, breaks, search=False, seen=()):
+    """`breaks`: [{"label", "spec", "url", "value"}] — requests that were seen to change a module-level container,
+    with a hash of the value they left in it.  For every such container: the functions that name it (static) or
+    were running when it changed (dynamic).  Request pairs (A, B) on the same dataset with different solo outcomes:
+      (1) the pairs with the longest common URL prefix (same variables through different branches: shared buffers);
+      (2) A from a signature-diverse set of ALL requests served on that dataset (`seen`: readers are victims too)
+          x B one representative of every distinct value left in the container (what B does to A is determined
+          by what B leaves behind: shared flags/scratch).
+    For every pair: every one-preemption schedule that switches A out at a line of one of those functions (and at
+    the lines around an observed write), lets B run to completion, then resumes A; for (1) also with the roles
+    swapped.  Failures are recorded with the schedule."""
     from props import c13_modstate as M
+    import multiprocessing
 
     by = {}
     for b in breaks:
-        by.setdefault(b["label"], {}).setdefault(repr(b["spec"]), (b["spec"], []))[1].append(b["url"])
+        g = by.setdefault(b["label"], {}).setdefault(repr(b["spec"]), (b["spec"], {}))
+        g[1].setdefault(b["url"], b.get("value"))
     jobs = []
     notes = []
-    max_pairs = 96 if search else 24
+    k1, n_a, n_cls, per_pair, n_groups = (32, 48, 16, 80, 4) if search else (8, 24, 12, 40, 1)
     for label in sorted(by):
         funcs = set(M.functions_naming([label]))
+        groups = sorted(by[label].values(), key=lambda g: -len(g[1]))
+        pairs = []          # (spec, a, b, both roles?)
         cands = []
-        for _, (spec, urls) in sorted(by[label].items()):
-            urls = sorted(set(urls))
+        for spec, vals in groups:
+            urls = sorted(vals)
             for i in range(len(urls)):
                 for j in range(i + 1, len(urls)):
                     if _solo(spec, urls[i]) != _solo(spec, urls[j]):
-                        common_prefix = len(os.path.commonprefix([urls[i], urls[j]]))
-                        cands.append((-common_prefix, rng.random(), spec, urls[i], urls[j]))
+                        cands.append((-len(os.path.commonprefix([urls[i], urls[j]])), rng.random(), spec, urls[i], urls[j]))
         cands.sort(key=lambda c: c[:2])
-        prof = {}
+        for _, _, spec, ua, ub in cands[:k1]:
+            pairs.append((spec, ua, ub, True))
+        for spec, vals in groups[:n_groups]:
+            aset = _diverse(rng, list(vals) + [u for sp, u in seen if sp == spec], n_a)
+            classes = {}
+            for u in sorted(vals):
+                classes.setdefault(vals[u], []).append(u)
+            reps = [rng.choice(classes[v]) for v in rng.sample(sorted(classes, key=repr), min(n_cls, len(classes)))]
+            for a in aset:
+                for b in reps:
+                    if a != b and _solo(spec, a) != _solo(spec, b):
+                        pairs.append((spec, a, b, False))
+        todo = []
+        for spec, ua, ub, both in pairs:
+            for u in ((ua, ub) if both else (ua,)):
+                if (spec, u, [label]) not in todo:
+                    todo.append((spec, u, [label]))
+        with multiprocessing.get_context("fork").Pool(max(2, min(14, (os.cpu_count() or 4) - 2))) as pool:
+            prof = {(repr(j[0]), j[1]): r for j, r in zip(todo, pool.map(_profile_job, todo, chunksize=1))}
+        # functions seen writing the container join the target set
+        for _, rec, hits in prof.values():
+            for k in hits:
+                for kk in (k - 1, k):
+                    if 0 <= kk < len(rec):
+                        funcs.add(rec[kk][:2])
+
+        def points(spec, u, cap):
+            """the lines right around an observed write always; the other lines of the functions strided to cap"""
+            _, rec, hits = prof[(repr(spec), u)]
+            near = set(k for h in hits for k in (h - 1, h, h + 1) if 0 <= k < len(rec))
+            rest = [k for k, p in enumerate(rec) if p[:2] in funcs and k not in near]
+            rest, _ = strided(rest, cap, rng.randrange(1 << 16))
+            return sorted(near | set(rest))
+
         n_plans = 0
-        for _, _, spec, ua, ub in cands[:max_pairs]:
-            idx = []
-            for u in (ua, ub):
-                key = (repr(spec), u)
-                if key not in prof:
-                    prof[key] = _profile(spec, u, [label])
-                    # functions seen writing the container join the target set
-                    _, rec, hits = prof[key]
-                    for k in hits:
-                        for kk in (k - 1, k):
-                            if 0 <= kk < len(rec):
-                                funcs.add(rec[kk][:2])
-            for u in (ua, ub):
-                _, rec, hits = prof[(repr(spec), u)]
-                ks = set(k for k, p in enumerate(rec) if p[:2] in funcs)
-                ks.update(k for h in hits for k in (h - 1, h, h + 1) if 0 <= k < len(rec))
-                idx.append(sorted(ks))
-            plans = [[(0, k), (1, INF)] for k in idx[0]] + [[(1, k), (0, INF)] for k in idx[1]]
-            plans, _ = strided(plans, 1500 if search else 700, rng.randrange(1 << 16))
+        for spec, ua, ub, both in pairs:
+            plans = [[(0, k), (1, INF)] for k in points(spec, ua, per_pair * (4 if both else 1))]
+            if both:
+                plans += [[(1, k), (0, INF)] for k in points(spec, ub, per_pair * 4)]
             n_plans += len(plans)
             for ch in chunks(plans, 100):
                 jobs.append((spec, [ua, ub], ch, "targeted-line:%s" % label.rsplit(".", 1)[1], "line"))
-        notes.append("%s: functions %s; %d request pairs (of %d), %d targeted one-preemption schedules"
-                     % (label, sorted("%s:%s" % f for f in funcs), min(len(cands), max_pairs), len(cands), n_plans))
+        notes.append("%s: functions %s; %d closest-prefix pairs (of %d candidates) + %d (request x value-class) pairs, "
+                     "%d targeted one-preemption schedules"
+                     % (label, sorted("%s:%s" % f for f in funcs), min(len(cands), k1), len(cands),
+                        len(pairs) - min(len(cands), k1), n_plans))
     if jobs:
         run_jobs(ctx, jobs)
     ctx.extra["targeted_line_search"] = ctx.extra.get("targeted_line_search", []) + notes
